@@ -41,7 +41,14 @@ def fmt(x):
     return "-" if x is None else str(x)
 
 
+class Idx:
+    """an index-like object that is not an int"""
+    def __init__(self, i): self.i = int(i)
+    def __index__(self): return self.i
+
+
 def run(ctx):
+    import numpy as np
     from nitypes.vector import Vector
     rng = ctx.rng
     lines, expect = [], []
@@ -133,11 +140,21 @@ def run(ctx):
             good = lambda: val({bool: "b", int: rng.choice("ib"), float: "f", str: "s"}[vtype])
             anyv = lambda: good() if rng.random() < 0.75 else val(rng.choice("bifsx"))
             i = rng.randint(-7, 7)
+            # an index is anything with __index__ (as for a list): NumPy integer scalars, user classes, bool
+            ii = i
+            if rng.random() < 0.3:
+                ii = rng.choice([np.int64, np.int8, np.uint8 if i >= 0 else np.int16, Idx, np.intp])(i)
+                ctx.count("index-spelling", type(ii).__name__)
             sl = tuple(rng.choice([None] + list(range(-6, 7))) for _ in range(2)) + (rng.choice([None, 1, 2, -1, -2, 0]),)
             before = list(v)
+            refused_ok = True
             if op == "set":
-                x = anyv(); r = outcome(lambda: v.__setitem__(i, x)); line = f"vset {i} {enc(x)}"
-                lr = outcome(lambda: l.__setitem__(i, x)) if r[0] == "ok" else None
+                x = anyv()
+                if rng.random() < 0.12:
+                    x = rng.choice([[good()], (good(),), []])      # a container is never an element
+                r = outcome(lambda: v.__setitem__(ii, x)); line = f"vset {i} {enc(x)}"
+                lr = outcome(lambda: l.__setitem__(ii, x)) if r[0] == "ok" else None
+                refused_ok = not isinstance(x, vtype) or outcome(lambda: list(l).__setitem__(ii, x))[0] == "err"
             elif op == "setslice":
                 xs = [anyv() for _ in range(rng.randint(0, 4))]
                 src, kind = src_kind(xs)
@@ -148,16 +165,18 @@ def run(ctx):
                     ctx.violation(what="slice assignment with an item that is not of the value type", values=str(before), items=str(xs), source=kind,
                                   value_type=vtype.__name__, observed=show(r), required="TypeError, nothing stored")
             elif op == "del":
-                r = outcome(lambda: v.__delitem__(i)); line = f"vdel {i}"
-                lr = outcome(lambda: l.__delitem__(i)) if r[0] == "ok" else None
+                r = outcome(lambda: v.__delitem__(ii)); line = f"vdel {i}"
+                lr = outcome(lambda: l.__delitem__(ii)) if r[0] == "ok" else None
+                refused_ok = outcome(lambda: list(l).__delitem__(ii))[0] == "err"
             elif op == "delslice":
                 r = outcome(lambda: v.__delitem__(slice(*sl))); line = f"vdelslice {fmt(sl[0])} {fmt(sl[1])} {fmt(sl[2])}"
                 lr = outcome(lambda: l.__delitem__(slice(*sl))) if r[0] == "ok" else None
             elif op == "insert":
-                x = anyv(); r = outcome(lambda: v.insert(i, x)); line = f"vinsert {i} {enc(x)}"
+                x = anyv(); r = outcome(lambda: v.insert(ii, x)); line = f"vinsert {i} {enc(x)}"
+                refused_ok = not isinstance(x, vtype)
                 if not isinstance(x, vtype) and not (r[0] == "err" and r[1] == "TypeError"):
                     ctx.violation(what="insert of an item that is not of the value type", item=repr(x), value_type=vtype.__name__, observed=show(r), required="TypeError")
-                lr = outcome(lambda: l.insert(i, x)) if r[0] == "ok" else None
+                lr = outcome(lambda: l.insert(ii, x)) if r[0] == "ok" else None
             elif op == "append":
                 x = anyv(); r = outcome(lambda: v.append(x)); line = f"vappend {enc(x)}"
                 if not isinstance(x, vtype) and not (r[0] == "err" and r[1] == "TypeError"):
@@ -178,8 +197,9 @@ def run(ctx):
                 if (r[0] == "ok") != (k == len(xs)):
                     ctx.violation(what="extend accepted / refused wrongly", values=str(before), items=str(xs), observed=show(r), required="TypeError iff an item is not of the value type")
             elif op == "pop":
-                r = outcome(lambda: v.pop(i)); line = f"vpop {i}"
-                lr = outcome(lambda: l.pop(i)) if r[0] == "ok" else None
+                r = outcome(lambda: v.pop(ii)); line = f"vpop {i}"
+                lr = outcome(lambda: l.pop(ii)) if r[0] == "ok" else None
+                refused_ok = outcome(lambda: list(l).pop(ii))[0] == "err"
             elif op == "remove":
                 x = good(); r = outcome(lambda: v.remove(x)); line = f"vremove {enc(x)}"
                 lr = outcome(lambda: l.remove(x)) if r[0] == "ok" else None
@@ -196,6 +216,9 @@ def run(ctx):
                 expect.append("err " + r[1])
                 if list(v) != before:
                     ctx.violation(what="rejected call stored something", op=line, observed=str(list(v)), required=str(before))
+            if r[0] == "err" and not refused_ok:
+                ctx.violation(what="Vector refused what a list accepts", op=line, index=f"{type(ii).__name__}({i})", values=str(before),
+                              observed=show(r), required="the list operation")
             if lr is not None and lr[0] == "err":
                 ctx.violation(what="Vector accepted what a list rejects", op=line, observed="ok", required=show(lr))
             if any(not isinstance(x, vtype) for x in v) or v._value_type is not vtype:
